@@ -5,7 +5,7 @@
    statements hold for crc32, for the package tests' fake hash and for any
    other function. *)
 From Coq Require Import NArith ZArith List Bool Permutation.
-From Tinode Require Import Pure.Ring Pure.RingProofs Sys.Election Sys.ElectionProofs.
+From Tinode Require Import Pure.Ring Pure.RingProofs Sys.Election Sys.ElectionProofs Sys.Gate Sys.GateProofs.
 Import ListNotations.
 
 (* ------------------------------------------------------------------ *)
@@ -302,3 +302,197 @@ Theorem c17_el_safety_unrepaired : forall cfg, NoDup (cfg_nodes cfg) -> forall e
   term (loc s n) = term (loc s n') -> n = n'.
 Proof. exact safety_unrepaired. Qed.
 Print Assumptions c17_el_safety_unrepaired.
+
+(* ------------------------------------------------------------------ *)
+(* C. the signature gate of the inter-node entry points (model Sys/Gate.v of
+   Cluster.TopicMaster, Cluster.Route, Cluster.TopicProxy, makeClusterReq,
+   routeToTopicMaster, topicProxyGone, routeToTopicIntraCluster, nodeForTopic,
+   Cluster.rehash).  A node's state includes the multiplexing sessions that exist;
+   [run] is the state after ANY finite sequence of rehashes (either side, any node
+   list), honest sends, arbitrary messages put on the wire, hub changes, deliveries
+   (in any order, after any delay) and drops.  [sigf]/[getf] are the ring's
+   Signature()/Get() as functions of the node list: universally quantified in C.1,
+   instantiated with the ring of part A in C.2. *)
+
+(* C.1 a request for a topic (not the proxy's tear-down notice), from a configured node,
+   whose signature is not the receiver's CURRENT one is rejected and leaves the state as it
+   was - in every state, i.e. whether or not the multiplexing session of (topic, node) already
+   exists *)
+Theorem c17_gate_master_refuses : forall sigf s m full,
+  q_gone m = false -> smem (q_node m) (n_peers s) = true -> q_sig m <> cur_sig sigf s ->
+  topic_master sigf s m full = (s, ORejectedSig).
+Proof. exact topic_master_refuses. Qed.
+Print Assumptions c17_gate_master_refuses.
+
+(* exact condition of the refusal; it reads neither the session store nor the hub *)
+Theorem c17_gate_master_rejected_iff : forall sigf s m full,
+  snd (topic_master sigf s m full) = ORejectedSig <->
+  (smem (q_node m) (n_peers s) = true /\ q_gone m = false /\ q_sig m <> cur_sig sigf s).
+Proof. exact topic_master_rejected_sig_iff. Qed.
+Print Assumptions c17_gate_master_rejected_iff.
+
+Theorem c17_gate_ignores_sessions : forall sigf s1 s2 m full,
+  n_peers s1 = n_peers s2 -> n_ring s1 = n_ring s2 ->
+  (snd (topic_master sigf s1 m full) = ORejectedSig <-> snd (topic_master sigf s2 m full) = ORejectedSig).
+Proof. exact topic_master_gate_ignores_sessions. Qed.
+Print Assumptions c17_gate_ignores_sessions.
+
+(* whatever TopicMaster does behind the gate (create the session, hand the request to the hub
+   or the topic, answer 500, panic) it does for a request stamped with the current signature *)
+Theorem c17_gate_master_passed : forall sigf s m full s' o,
+  topic_master sigf s m full = (s', o) -> passed_gate o = true -> q_sig m = cur_sig sigf s.
+Proof. exact topic_master_passed_sig. Qed.
+Print Assumptions c17_gate_master_passed.
+
+(* a refusal creates no session and stops none *)
+Theorem c17_gate_master_refusal_no_effect : forall sigf s m full s' o,
+  topic_master sigf s m full = (s', o) -> (o = ORejectedSig \/ o = OUnknownNode) -> s' = s.
+Proof. exact topic_master_rejected_unchanged. Qed.
+Print Assumptions c17_gate_master_refusal_no_effect.
+
+(* Cluster.Route *)
+Theorem c17_gate_route : forall sigf s r full,
+  (route sigf s r full = ORejectedSig <-> r_sig r <> cur_sig sigf s) /\
+  (passed_gate (route sigf s r full) = true -> r_sig r = cur_sig sigf s).
+Proof. intros sigf s r full. exact (conj (route_rejected_sig_iff sigf s r full) (route_passed_sig sigf s r full)). Qed.
+Print Assumptions c17_gate_route.
+
+(* every history, every message with a Signature field, whoever made it: it gets past the
+   gate of its receiver only with the signature the receiver has at the moment of delivery *)
+Theorem c17_gate_delivery : forall sigf getf n0 evs k full f s o b sg,
+  let n := fst (grun sigf getf n0 evs) in
+  nth_error (flight n) k = Some f -> find_node (msg_to (f_msg f)) (nodes n) = Some s ->
+  snd (gstep sigf getf n (EDeliver k full)) = ObDelivered o b -> passed_gate o = true ->
+  msg_sig (f_msg f) = Some sg -> sg = cur_sig sigf s.
+Proof. intros sigf getf n0 evs. exact (deliver_gate sigf getf (fst (grun sigf getf n0 evs))). Qed.
+Print Assumptions c17_gate_delivery.
+
+(* ... and with any other signature it is rejected and the receiver is left as it was *)
+Theorem c17_gate_delivery_refused : forall sigf getf n0 evs k full f s,
+  let n := fst (grun sigf getf n0 evs) in
+  nth_error (flight n) k = Some f -> find_node (msg_to (f_msg f)) (nodes n) = Some s ->
+  match f_msg f with
+  | MReq _ q => q_gone q = false /\ smem (q_node q) (n_peers s) = true /\ q_sig q <> cur_sig sigf s
+  | MRoute _ r => r_sig r <> cur_sig sigf s
+  | MResp _ _ => False
+  end ->
+  exists b, snd (gstep sigf getf n (EDeliver k full)) = ObDelivered ORejectedSig b /\
+            find_node (msg_to (f_msg f)) (nodes (fst (gstep sigf getf n (EDeliver k full)))) = Some s.
+Proof. intros sigf getf n0 evs. exact (deliver_refused sigf getf (fst (grun sigf getf n0 evs))). Qed.
+Print Assumptions c17_gate_delivery_refused.
+
+(* end to end: a message made by makeClusterReq / routeToTopicIntraCluster when its sender's
+   ring was built from the node list L, delivered after any delay and any rehashes on either
+   side to a receiver whose ring is then built from R, passes only if Signature(L) = Signature(R) *)
+Theorem c17_gate_history : forall sigf getf names evs k full f s o b L,
+  let n := fst (grun sigf getf (init_net names) evs) in
+  nth_error (flight n) k = Some f -> find_node (msg_to (f_msg f)) (nodes n) = Some s ->
+  snd (gstep sigf getf n (EDeliver k full)) = ObDelivered o b -> passed_gate o = true ->
+  f_origin f = Some L -> sigf L = sigf (n_ring s).
+Proof.
+  intros sigf getf names evs k full f s o b L.
+  exact (history_gate sigf getf (init_net names) evs k full f s o b L (init_honest sigf names)).
+Qed.
+Print Assumptions c17_gate_history.
+
+(* the ring a node compares with is the node list of its last rehash: a rehash installs its
+   list, and no other event (deliveries, session creation, hub changes, other nodes' rehashes) changes it *)
+Theorem c17_gate_ring_is_last_rehash : forall sigf getf n,
+  (forall i l s s', find_node i (nodes n) = Some s ->
+     find_node i (nodes (fst (gstep sigf getf n (ERehash i (Some l))))) = Some s' -> n_ring s' = l) /\
+  (forall e j s s', find_node j (nodes n) = Some s -> find_node j (nodes (fst (gstep sigf getf n e))) = Some s' ->
+     (forall ns, e <> ERehash j ns) -> n_ring s' = n_ring s).
+Proof.
+  intros sigf getf n. split.
+  - intros i l s s'. exact (rehash_installs sigf getf n i l s s').
+  - intros e j s s'. exact (ring_changes_only_by_rehash sigf getf n e j s s').
+Qed.
+Print Assumptions c17_gate_ring_is_last_rehash.
+
+(* "every inter-node entry point that hands something to a topic checks the ring" is FALSE as
+   stated: Cluster.TopicProxy (master -> proxy responses) has no signature to check *)
+Theorem c17_gate_all_entry_points_refuted : ~ all_entry_points_gated_statement.
+Proof. exact all_entry_points_gated_refuted. Qed.
+Print Assumptions c17_gate_all_entry_points_refuted.
+
+(* what holds: every entry point whose message has a Signature field (TopicMaster, Route) *)
+Theorem c17_gate_all_entry_points_partial :
+  forall (sigf : list str -> str) (getf : list str -> str -> str) n k full f s d b,
+    msg_sig (f_msg f) <> None ->
+    nth_error (flight n) k = Some f -> find_node (msg_to (f_msg f)) (nodes n) = Some s ->
+    snd (gstep sigf getf n (EDeliver k full)) = ObDelivered (ODelivered d) b ->
+    msg_sig (f_msg f) = Some (cur_sig sigf s).
+Proof. exact all_entry_points_gated_partial. Qed.
+Print Assumptions c17_gate_all_entry_points_partial.
+
+(* "every request that carries another signature is rejected" is FALSE as stated: the proxy's
+   tear-down notice (Gone) is honoured - the multiplexing sessions of that proxy are stopped -
+   before the signature is looked at.  The version that holds is c17_gate_master_refuses
+   (hypothesis q_gone m = false), restated here *)
+Theorem c17_gate_every_mismatch_rejected_refuted : ~ every_mismatch_rejected_statement.
+Proof. exact every_mismatch_rejected_refuted. Qed.
+Print Assumptions c17_gate_every_mismatch_rejected_refuted.
+
+Theorem c17_gate_every_mismatch_rejected_partial : forall (sigf : list str -> str) s m full,
+  q_gone m = false ->
+  smem (q_node m) (n_peers s) = true -> q_sig m <> cur_sig sigf s ->
+  snd (topic_master sigf s m full) = ORejectedSig.
+Proof. intros sigf s m full Hg Hn Hs. rewrite (topic_master_refuses sigf s m full Hg Hn Hs). reflexivity. Qed.
+Print Assumptions c17_gate_every_mismatch_rejected_partial.
+
+(* C.2 with the ring of part A (any hash, any digest, any replica count).  Nodes whose rings
+   differ refuse each other's topic traffic: after any history, an honest message made under
+   the node list L passes the gate of a receiver whose ring is built from [n_ring s] only if the
+   two rings have the same signature pre-image - as far as the digest tells these two pre-images
+   apart (same explicit hypothesis as c17_sig_gate_rings) *)
+Theorem c17_gate_rings_history : forall hash digest reps names evs k full f s o b L,
+  let sigf := ring_sigf hash digest reps in
+  let getf := ring_getf hash digest reps in
+  let n := fst (grun sigf getf (init_net names) evs) in
+  nth_error (flight n) k = Some f -> find_node (msg_to (f_msg f)) (nodes n) = Some s ->
+  snd (gstep sigf getf n (EDeliver k full)) = ObDelivered o b -> passed_gate o = true ->
+  f_origin f = Some L ->
+  (digest (ring_pre hash digest reps L) = digest (ring_pre hash digest reps (n_ring s)) ->
+     ring_pre hash digest reps L = ring_pre hash digest reps (n_ring s)) ->
+  ring_pre hash digest reps L = ring_pre hash digest reps (n_ring s).
+Proof.
+  intros hash digest reps names evs k full f s o b L.
+  exact (history_gate_rings hash digest reps (init_net names) evs k full f s o b L
+           (init_honest (ring_sigf hash digest reps) names)).
+Qed.
+Print Assumptions c17_gate_rings_history.
+
+(* the refusal, in every state (any set of multiplexing sessions) *)
+Theorem c17_gate_rings_differ_refused : forall hash digest reps s m r full L,
+  ring_pre hash digest reps L <> ring_pre hash digest reps (n_ring s) ->
+  (digest (ring_pre hash digest reps L) = digest (ring_pre hash digest reps (n_ring s)) ->
+     ring_pre hash digest reps L = ring_pre hash digest reps (n_ring s)) ->
+  (q_gone m = false -> smem (q_node m) (n_peers s) = true -> q_sig m = ring_sigf hash digest reps L ->
+     topic_master (ring_sigf hash digest reps) s m full = (s, ORejectedSig)) /\
+  (r_sig r = ring_sigf hash digest reps L -> route (ring_sigf hash digest reps) s r full = ORejectedSig).
+Proof.
+  intros hash digest reps s m r full L Hne Hinj. split.
+  - intros Hg Hn Hq. exact (rings_differ_refused hash digest reps s m full L Hg Hn Hq Hne Hinj).
+  - intros Hq. exact (rings_differ_route_refused hash digest reps s r full L Hq Hne Hinj).
+Qed.
+Print Assumptions c17_gate_rings_differ_refused.
+
+(* and the same live nodes, listed in any order on the two sides, are never refused *)
+Theorem c17_gate_same_nodes_accepted : forall hash digest reps s m full L,
+  Permutation L (n_ring s) -> q_sig m = ring_sigf hash digest reps L ->
+  snd (topic_master (ring_sigf hash digest reps) s m full) <> ORejectedSig.
+Proof. exact same_nodes_accepted. Qed.
+Print Assumptions c17_gate_same_nodes_accepted.
+
+(* the model computes: first contact under equal rings (session created), the master rehashes,
+   the proxy's next request under the old ring is rejected although the session exists, the
+   proxy rehashes to the same nodes in another order, its next request is delivered *)
+Example c17_gate_example :
+  snd (grun x_sigf x_getf (init_net [x_a; x_b; x_c]) x_evs) =
+  [ObNone;
+   ObSent x_a [3%N]; ObDelivered (ODelivered DMeta) true;
+   ObRehashed [2%N];
+   ObSent x_a [3%N]; ObDelivered ORejectedSig true;
+   ObRehashed [2%N];
+   ObSent x_a [2%N]; ObDelivered (ODelivered DMeta) true].
+Proof. exact stale_signature_example. Qed.
